@@ -426,6 +426,22 @@ def run(ctx, rec):
     if rec.violations:
         return
     nb = ctx.n(2, 3)
+    if ctx.shard == 0:
+        # every child configuration (hash seeds, locales incl. C / POSIX with UTF-8 mode off, working directories) on a fixed batch
+        # with non-ASCII salts and values, falsy values and several splitters
+        fixed_items = []
+        for text in SHORT_TEXTS + ['def exp { salt: "é-日本" splitters: uid, plan return "A" weighted 1, "B" weighted 1, "C" weighted 2 }',
+                                   'def exp { splitters: Zeta, alpha, Beta, uid return "A" weighted 1, "B" weighted 1, "C" weighted 1, "D" weighted 1 }']:
+            for u in ["u1", "josé", "日本語", "\U0001f600", "", 0, None, 1.5, True, "İ", "ß"]:
+                fixed_items.append({"text": text, "inputs": M.enc_inputs({"uid": u, "plan": "prö", "Zeta": "z", "alpha": u, "Beta": "β"}), "multi": True})
+        v = judge_batch({"batch": fixed_items, "configs": list(range(len(CONFIGS)))})
+        rec.evaluations += 1
+        rec.count("fixed-cross-process")
+        for k in v.pop("multi_keys", []):
+            rec.nontrivial.add(runner.digest(k))
+        if v["viol"]:
+            rec.violation("fixed-cross-process", {"batch": fixed_items, "configs": list(range(len(CONFIGS)))}, v["viol"])
+            return
 
     def jb(case):
         v = judge_batch(case)
